@@ -178,7 +178,7 @@ def run(rep, tier, seed, keep=False):
         rep.traces += n
         # ---------------- G: how the grant spreads over a history (auto_yaqlize_result)
         dump = wd + '/grant'
-        r = tlc.ok(tlc.run('YaqlizationGrant', 'SPECIFICATION Spec\nCONSTANTS\n MaxHist = %d\nINVARIANT OnlyObtainedInstances\n' % (4 if quick else 6), wd,
+        r = tlc.ok(tlc.run('YaqlizationGrant', 'SPECIFICATION Spec\nCONSTANTS\n MaxHist = %d\nINVARIANT OnlyObtainedInstances\n' % (4 if quick else 5), wd,
                            workers=4, dump=dump))
         rep.tlc('YaqlizationGrant/G+M histories', r)
         nh = 0
@@ -191,11 +191,18 @@ def run(rep, tier, seed, keep=False):
                 def __init__(self):
                     self.secret = 'K-' + SECRET
 
+            class R(object):            # yaqlized by the host itself, restrictively: only `pub`
+                def __init__(self):
+                    self.pub = 'public'
+                    self.secret = 'R-' + SECRET
+            yaqlization.yaqlize(R, whitelist=['pub'], yaqlize_methods=False, yaqlize_indexer=False)
+
             class Holder(object):
-                def __init__(self, child):
+                def __init__(self, child, rchild=None):
                     self.child = child
-            objs = {'k1': K(), 'k2': K(), 'k3': K()}
-            a = yaqlization.yaqlize(Holder(objs['k1']), auto_yaqlize_result=True)
+                    self.rchild = rchild
+            objs = {'k1': K(), 'k2': K(), 'k3': K(), 'r1': R(), 'r2': R()}
+            a = yaqlization.yaqlize(Holder(objs['k1'], objs['r1']), auto_yaqlize_result=True)
             b = yaqlization.yaqlize(Holder(objs['k3']))
             got = []
             for h in hist:
@@ -205,6 +212,10 @@ def run(rep, tier, seed, keep=False):
                     text, c['o'] = '$a.child', None
                 elif h == 'obtainB':
                     text, c['o'] = '$b.child', None
+                elif h == 'obtainRA':
+                    text, c['o'] = '$a.rchild', None
+                elif '.' in h:
+                    text, c['o'] = '$o.' + h.split('.')[1], objs[h.split('.')[0]]
                 else:
                     text, c['o'] = '$o.secret', objs[h]
                 try:
@@ -314,7 +325,9 @@ def run(rep, tier, seed, keep=False):
                  'def(f, $c) -> f().secret', '$c.unpack()', '[$c].unpack(a) -> $a.secret', "regex('a').matches($c)", "'a'.join([$c])", '[$c].join(",")', "'a' + $c",
                  "$c.toUpper()", "hex($c)", '$c mod 2', 'range($c)', 'random($c)' if False else 'abs($c)', 'datetime($c)', 'timespan(days => $c)', '$c.__class__',
                  '$c.__dict__', "$c['__class__']", '$c.__getattribute__(secret)', '#operator_.($c, secret)' if False else '$c.reveal', "[$c].select($.reveal())",
-                 "[$c].where($.secret = 1)", "call('#call', [$c], {})", "call('#call', [$c, 1], {})", "call('#call', [$c], {a => 1})",
+                 "[$c].where($.secret = 1)", "$c.assert(false, '{0.secret}')", "$c.assert(false, '{0._secret}')", "$c.assert(false, '{0.__class__}')",
+                 "$c.assert(0, '{}')", "assert($c, false, '{0.secret}')", "[$c].assert(false, '{0[0].secret}')", "$c.assert(false)", "$c.assert(true, '{0.secret}')",
+                 "call('#call', [$c], {})", "call('#call', [$c, 1], {})", "call('#call', [$c], {a => 1})",
                  "call('lambda', [$c], {})", "call('#operator_.', [$c, secret], {})", "call('#indexer', [$c, secret], {})", "call('#method_call', [$c, reveal], {})" if False else "call(call, ['#call', [$c], {}], {})", "[$c].all($.secret)", "{a => $c}.values().select($.secret)", "[$c].aggregate($1.secret)", "[$c, 1].aggregate($1.secret)"]
         for t in forms:
             run_expr(t, {'c': canary}, 'expr', 'as $c')
